@@ -11,6 +11,7 @@ import (
 	"go.sia.tech/core/consensus"
 	"go.sia.tech/core/gateway"
 	"go.sia.tech/core/types"
+	"go.sia.tech/coreutils/chain"
 	"go.uber.org/zap"
 )
 
@@ -129,16 +130,32 @@ func (s *Syncer) parallelSync(ctx context.Context, cs consensus.State, headers [
 	wg.Add(1)
 	go func() {
 		defer wg.Done()
+		// below the require height blocks are only fully validated when a reorg
+		// applies them, which may be while a LATER batch is being added: remember
+		// who served which block, so that the peer that actually sent the
+		// invalid block is banned rather than the one whose batch triggered
+		// the reorg
+		servedBy := make(map[types.BlockID]*Peer)
 		for resps := range finishCh {
 			for _, r := range resps {
 				var err error
 				if r.req.base.Height >= cs.Network.HardforkV2.RequireHeight {
 					err = s.cm.AddValidatedV2Blocks(r.blocks, r.states)
 				} else {
+					for _, b := range r.blocks {
+						servedBy[b.ID()] = r.peer
+					}
 					err = s.cm.AddBlocks(r.blocks)
 				}
 				if err != nil {
-					s.ban(r.peer, fmt.Errorf("peer sent invalid blocks: %w", err))
+					culprit := r.peer
+					var ibe *chain.InvalidBlockError
+					if errors.As(err, &ibe) {
+						if p, ok := servedBy[ibe.Index.ID]; ok {
+							culprit = p
+						}
+					}
+					s.ban(culprit, fmt.Errorf("peer sent invalid blocks: %w", err))
 					errCh <- err
 					return
 				}
